@@ -118,8 +118,17 @@ def run_construct(case):
         S.problem("value.%s(%r) built number" % (kind, b), float(want_exact), built,
                   detail={"exact": str(want_exact)})
         return
+    # first a few numbers that are almost, but not exactly, the built value (a value read from a file with seven
+    # decimals, a value off by rounding noise): whatever they are analysed as, the exact value's answer stands
+    for near in (built * (1 + 1e-9), built * (1 - 1e-9), round(built, 7), round(built, 5), float("%.6g" % built)):
+        try:
+            engine.with_step_budget(mvalue.determine, (near,))
+        except engine.StepBudgetExceeded:
+            raise
+        except Exception:                                   # noqa -- near values are judged in the `near` clause
+            pass
     got = engine.with_step_budget(mvalue.determine, (built,))
-    S.trans(1)
+    S.trans(6)
     S.outcome(repr(got))
     S.count("constructed_values_analysed")
     if not _same_tuple(got, want):
